@@ -1,5 +1,6 @@
 import DilithiumVerif.Props.C02
 import DilithiumVerif.Lemmas.VerifyTotal
+import DilithiumVerif.Lemmas.SignTotal
 /-
   C08 — Verification is total on untrusted bytes; no operation panics or overflows.
   The model has the semantics of the overflow-checked build: `.ok b` means "returned b without any panic,
@@ -71,5 +72,36 @@ theorem dil_verify_total (p : Params) (hp : p ∈ allParams) (pk msg sig : List 
   split
   · exact OkOrFuel.of_ok false rfl trivial
   · exact Complete.verify_total p hp sig msg pk hpk hb
+
+/-! ## Part 3: the honest path — key generation and signing complete without overflow -/
+
+open DV.Complete DV.SamplerTotal in
+/-- **Key generation from any 32-byte seed is total**, for each of the six parameter sets: no intermediate arithmetic
+    overflows, no index is out of range, and the keys have exactly PUBLICKEYBYTES and SECRETKEYBYTES bytes; the RNG tape
+    is not touched. -/
+theorem keypair_total (p : Params) (hp : p ∈ allParams) (seed : List Nat) (hs : seed.length = SEEDBYTES) (tape : Tape) :
+    OkOrFuel (keypair p (some seed) tape) (fun r => r.1.length = p.pkBytes ∧ r.2.1.length = p.skBytes ∧ r.2.2 = tape) :=
+  Complete.keypair_total p hp seed hs tape
+
+open DV.Complete DV.SamplerTotal in
+/-- **Signing with any generated key on any message is total**: for a key pair returned by `keypair` (seeded or not),
+    deterministic signing — or randomized/hedged signing with 64 bytes left on the RNG tape — within the u16 nonce budget
+    of the code (L·iterations ≤ 2^16 − 1: beyond it the Rust code itself overflows its `u16` counter, which the model
+    reproduces as a fault) completes with no overflow in any intermediate arithmetic of any iteration, rejected or accepted. -/
+theorem signature_total (p : Params) (hp : p ∈ allParams) (seed : Option (List Nat)) (tape : Tape) (pk sk : List Nat) (tape' : Tape)
+    (hk : keypair p seed tape = .ok (pk, sk, tape'))
+    (fuel : Nat) (hf : (p.l : Int) * fuel ≤ 65535) (msg : List Nat) (randomized : Bool) (tape2 : Tape)
+    (ht : randomized = true → CRHBYTES ≤ tape2.length) :
+    OkOrFuel (signature p fuel msg sk randomized tape2) (fun _ => True) :=
+  Complete.signature_total p hp seed tape pk sk tape' hk fuel hf msg randomized tape2 ht
+
+open DV.Complete DV.SamplerTotal in
+/-- one iteration, for any key in the key-generation ranges and any nonce within the budget -/
+theorem sign_iteration_total (p : Params) (hp : p ∈ allParams) (mat : List PolyVec) (hmat : MatOK p mat)
+    (s1 s2 t0 s1h s2h t0h : PolyVec) (kd : KeyData p s1 s2 t0 s1h s2h t0h)
+    (mu rp : List Nat) (hmu : mu.length = CRHBYTES) (hrp : rp.length = CRHBYTES) (nonce : Int)
+    (h0 : 0 ≤ nonce) (hn : (p.l : Int) * nonce + p.l ≤ 65535) :
+    OkOrFuel (sign_iteration p mat mu rp s1h s2h t0h nonce) (fun _ => True) :=
+  Complete.sign_iteration_total p hp mat hmat s1 s2 t0 s1h s2h t0h kd mu rp hmu hrp nonce h0 hn
 
 end DV.C08
